@@ -448,7 +448,20 @@ def atoi_bytes(e, cells, ty, std=False, allow_sign=True):
 @model(r'^btoi::btoi$|^btoi$|^atoi::atoi$|^atoi$|btoi::btou$|^btou$')
 def _(e, c, a):
     ty = (generic_args(c) or 'i64').split(',')[0].strip()
-    r = atoi_bytes(e, deref_vec(a[0]).cells, ty, allow_sign=not strip_generics(c).rstrip().endswith('btou'))
+    dv = deref_vec(a[0])
+    if dv.text is not None:
+        # bytes that are the canonical decimal text of a (symbolic) unsigned number
+        parts = norm_parts(str_parts(dv.text))
+        if isinstance(parts, tuple) and len(parts) == 1 and isinstance(parts[0], NumStr) and 'atoi' not in strip_generics(c):
+            n = parts[0]; w = INT_W[ty]; signed = ty[0] == 'i'
+            lim = (1 << (w - 1)) - 1 if signed else (1 << w) - 1
+            v = bv(n.v, n.w)
+            if lim < (1 << n.w) - 1:
+                if e.branch(z3.UGT(v, lim)): return Err(Enum('ParseIntegerErrorKind', 2))
+            return Ok(z3.ZeroExt(w - n.w, v) if w > n.w else (z3.Extract(w - 1, 0, v) if w < n.w else v))
+        if isinstance(parts, str): dv = RVec([Cell(b) for b in parts.encode()])
+        else: raise Unmodelled('btoi on structured text %r' % (parts,))
+    r = atoi_bytes(e, dv.cells, ty, allow_sign=not strip_generics(c).rstrip().endswith('btou'))
     if 'atoi' in strip_generics(c):
         raise Unmodelled('atoi::atoi (prefix semantics) not modelled')
     return r
